@@ -205,6 +205,49 @@ def handle (j : Json) : Except String Json := do
     | "content" => pure (jArr (qs.map (fun v => jOptStr (quoteVal Site.content.q Site.content.qe dflt v))))
     | "none" => pure (jArr (qs.map (fun v => jOptStr (convertVal v))))
     | _ => throw "bad site"
+  | "scope" =>
+    -- ops on utils.Scope: [["new", [[k,v],…]], ["copy", i], ["set", i, k, v], ["del", i, k], ["setglobal", i, k, v],
+    --                      ["get", i, k], ["iter", i], ["update", i, [[k,v],…]]]
+    let ops ← (← j.getObjVal? "ops").getArr?
+    let getD (x : Json) : Except String Dict := do
+      let kvs ← getKVs x
+      kvs.mapM (fun (k, v) => match k with | .str s => pure (s, v) | _ => throw "key")
+    let jv (v : Option Val) : Json := match v with
+      | none => Json.str "<missing>"
+      | some (.int i) => Json.num (JsonNumber.fromInt i)
+      | some (.str s) => Json.mkObj [("str", jStr s)]
+      | some .none => Json.null
+      | some (.bool b) => Json.bool b
+      | some _ => Json.str "<other>"
+    let step (acc : ScopeStore × List Json) (op : Json) : Except String (ScopeStore × List Json) := do
+      let (st, outs) := acc
+      let a ← op.getArr?
+      match a.toList with
+      | [.str "new", d] => do
+        let dd ← getD d
+        let (st', h) := st.new dd
+        pure (st', outs ++ [jNat h])
+      | [.str "copy", i] => do
+        let (st', h) := st.copy (← i.getNat?)
+        pure (st', outs ++ [jNat h])
+      | [.str "set", i, .str k, v] => do
+        pure (st.setItem (← i.getNat?) (Str.ofString k) (← getVal v), outs ++ [Json.null])
+      | [.str "del", i, .str k] => do
+        match st.delItem (← i.getNat?) (Str.ofString k) with
+        | some st' => pure (st', outs ++ [Json.null])
+        | none => pure (st, outs ++ [Json.str "KeyError"])
+      | [.str "setglobal", i, .str k, v] => do
+        pure (st.setGlobal (← i.getNat?) (Str.ofString k) (← getVal v), outs ++ [Json.null])
+      | [.str "get", i, .str k] => do
+        pure (st, outs ++ [jv (st.get (← i.getNat?) (Str.ofString k))])
+      | [.str "iter", i] => do
+        pure (st, outs ++ [jArr ((st.iter (← i.getNat?)).map jStr)])
+      | [.str "update", i, d] => do
+        let dd ← getD d
+        pure (st.update (← i.getNat?) dd, outs ++ [Json.null])
+      | _ => throw "bad scope op"
+    let (_, outs) ← ops.toList.foldlM step ({ dicts := [], rootOf := [] }, [])
+    pure (jArr outs)
   | "render" =>
     let r ← getRenderReq j
     pure (jOutcome (render r))
